@@ -2,7 +2,7 @@
 # run_mutants.sh: applies each hand-made mutant to the scratch worktree /tmp/wt/mine (created with
 # `git -C /repo worktree add --detach /tmp/wt/mine HEAD`), runs the repo suite there and the checks
 # expected to catch it, and prints a table. /repo is never touched.
-WT=/tmp/wt/mine
+WT=/tmp/wt/mine  # create it first: git -C /repo worktree add --detach /tmp/wt/mine main; remove it afterwards
 declare -A MAP=(
  [poll_le]="C13 C14" [poll_ignores_timeout]="C13 C14 C12" [first_kind_kept]="C14 C12" [flush_new_number]="C14 C12"
  [chan_mod8]="C15" [reset_forgets_value_lsb]="C17 C11" [number_lsb_keeps_value_lsb]="C10 C11"
